@@ -1,22 +1,178 @@
 import RjModel.Props.C13
 import RjModel.Props.C03
+import RjModel.Props.C11
 import RjModel.Generated.SlashTable
 /-! # C01 — a successful sync makes the destination a mirror of the source
 
-Proved at the level of the plan: the trailing-slash table, the closed form of the plan for every
-arrival order (C13), the no-skip confirmation pass, and the pointwise mirror statement for the state
-"(destination − deletions) overlaid with the copies".  That the doer's operations have exactly that
-effect on a real file system (and that every operation's precondition holds) is validated end to
-end (L3/L4), not proved: the file system is modelled at the plan level only — PARTIAL, see DESIGN.md. -/
+What is proved (for every tree pair, arrival order and poll schedule):
+* the trailing-slash table of `docs/notes.md` (all cells, file and symlink variants);
+* the plan is the order-free closed form (C13) and, applied as "(destination − deletions) overlaid
+  with the copies", gives at **every** path the source's entry, or leaves a destination entry the boss
+  deems equal (same-time file, folder, equal link); nothing else survives;
+* without skips the confirmation pass keeps the whole plan (C03);
+* a run that ends without error sent **exactly** one delete per planned deletion, then exactly the
+  creations of the planned copies (for files: the source's chunks, time stamp on the last, C11), in
+  plan order.
+
+What is validated rather than proved (PARTIAL): that the doer's operations have exactly that effect
+on a real file system — checked end to end by the L3/L4 correspondence with an independent tree
+comparison in all four placements. -/
 namespace Rj.C01
 open Rj
 
 /-- **The trailing-slash table** of `docs/notes.md` (re-extracted on every run), all 36 cells, with
 file *and* symlink variants of "File or symlink": the boss model rejects exactly the forbidden
-combinations (sending nothing that changes either side), puts a file/symlink source inside a
-trailing-slash destination (`b/a`), replaces the destination object itself otherwise, and consults the
-root-deletion gate wherever the table shows `!`. -/
+combinations, puts a file/symlink source inside a trailing-slash destination (`b/a`), replaces the
+destination object itself otherwise, and consults the root-deletion gate wherever the table shows `!`. -/
 theorem C01_slash_table : Generated.slashTableRecognised = true ∧ Generated.slashTable.all rowHolds = true := by
   decide
+
+/-- entries the boss deems equal (no action) -/
+def deemedEqual (c : PCfg) : Details → Details → Bool
+  | .file sm _, .file dm _ => sm = dm
+  | .folder, .folder => true
+  | .symlink sk st, .symlink dk dt => st = dt && (sk = dk || !c.destDiff)
+  | _, _ => false
+
+/-- the destination after the plan took effect: deletions removed, copies put in place -/
+def post (del : String → Option (Details × DelReason)) (cpy : String → Option (Details × CopyReason))
+    (dst : String → Option Details) (p : String) : Option Details :=
+  match cpy p with
+  | some (e, _) => some e
+  | none => match del p with
+    | some _ => none
+    | none => dst p
+
+/-- **Mirror, pointwise.**  With the closed-form plan, at every path: nothing where the source has
+nothing; where the source has `e`, either `e` itself was put there, or the destination's own entry
+stays and the boss deems it equal to `e`. -/
+theorem C01_plan_mirror (c : PCfg) (src dst : String → Option Details) (p : String) :
+    match src p with
+    | none => post (delSpec c src dst) (cpySpec c src dst) dst p = none
+    | some e => post (delSpec c src dst) (cpySpec c src dst) dst p = some e ∨
+        ∃ d, dst p = some d ∧ post (delSpec c src dst) (cpySpec c src dst) dst p = some d ∧ deemedEqual c e d = true := by
+  cases hs : src p with
+  | none =>
+    simp only [post, cpySpec, delSpec, hs]
+    cases dst p <;> simp
+  | some e =>
+    simp only [post, cpySpec, delSpec, hs]
+    cases hd : dst p with
+    | none => simp
+    | some d =>
+      by_cases hdel : needsDelete c e d = true
+      · simp [hdel]
+      · simp only [hdel, Bool.false_eq_true, ↓reduceIte]
+        cases hc : needsCopy c e d with
+        | some r => simp
+        | none =>
+          right
+          refine ⟨d, rfl, by simp, ?_⟩
+          cases e <;> cases d <;> simp_all [needsDelete, needsCopy, deemedEqual]
+          all_goals grind
+
+/-- a same-time file is left alone only if `--files-same-time` is `skip` at planning time;
+otherwise every destination file that stays has … been copied -/
+theorem C01_same_time_overwrite (c : PCfg) (h : c.sameTimeSkip = false) (src dst : String → Option Details) (p : String)
+    (sm ss dm ds : _) (hs : src p = some (.file sm ss)) (hd : dst p = some (.file dm ds)) :
+    post (delSpec c src dst) (cpySpec c src dst) dst p = some (.file sm ss) := by
+  simp only [post, cpySpec, hs, hd, needsDelete, needsCopy, h]
+  grind
+
+/-- **Mirror for every arrival order**: whatever the interleaving of the two listings, the plan the
+boss ends the query phase with has the mirror property at every path. -/
+theorem C01_mirror_every_order (c : PCfg) (evs : List Ev)
+    (hs : ((srcOf evs).map (·.1)).Nodup) (hd : ((dstOf evs).map (·.1)).Nodup) :
+    ∃ s, prun c PState.init evs = some s ∧ ∀ p,
+      match lookup (srcOf evs).reverse p with
+      | none => post s.del.get s.cpy.get (lookup (dstOf evs).reverse) p = none
+      | some e => post s.del.get s.cpy.get (lookup (dstOf evs).reverse) p = some e ∨
+          ∃ d, lookup (dstOf evs).reverse p = some d ∧
+            post s.del.get s.cpy.get (lookup (dstOf evs).reverse) p = some d ∧ deemedEqual c e d = true := by
+  obtain ⟨s, h, hdel, hcpy⟩ := C13.C13_closed_form c evs hs hd
+  refine ⟨s, h, fun p => ?_⟩
+  have e1 : s.del.get = delSpec c (lookup (srcOf evs).reverse) (lookup (dstOf evs).reverse) := funext hdel
+  have e2 : s.cpy.get = cpySpec c (lookup (srcOf evs).reverse) (lookup (dstOf evs).reverse) := funext hcpy
+  rw [e1, e2]
+  exact C01_plan_mirror c _ _ p
+
+/-! ### what a run without error sent -/
+
+/-- the creation commands of one planned copy -/
+def copyCmds (files : List (String × FileScript)) (p : String) : Details → List Cmd
+  | .file mtime _ => (C11.consumed (fileScript files p)).map fun ch => chunkCmd p ch.1 mtime ch.2
+  | .folder => [.createFolder p]
+  | .symlink k t => [.createSymlink p k t]
+
+/-- **Deletions sent = deletions planned**, one command each, in plan order. -/
+theorem C01_delete_trace (c : Ctx) (hdry : c.dryRun = false) (errAt : Option Nat)
+    (l : List (String × (Details × DelReason))) (x x' : XState) (st st' : Stats)
+    (h : deleteLoop c errAt l x st = (none, x', st')) :
+    x'.dest = x.dest ++ l.map (fun it => deleteCmd it.1 it.2.1) ∧ x'.src = x.src := by
+  induction l generalizing x st with
+  | nil => simp only [deleteLoop, Prod.mk.injEq] at h; obtain ⟨-, rfl, -⟩ := h; simp
+  | cons it rest ih =>
+    obtain ⟨p, d, r⟩ := it
+    simp only [deleteLoop] at h
+    by_cases hp : ((delStepState c x p d).poll errAt).1 = true
+    · simp [hp] at h
+    · simp only [hp, Bool.false_eq_true, ↓reduceIte] at h
+      obtain ⟨h1, h2⟩ := ih _ _ h
+      simp only [delStepState, hdry, Bool.false_eq_true, ↓reduceIte, XState.poll, XState.sendDest] at h1 h2
+      simp [h1, h2]
+
+/-- **Creations sent = copies planned**: folders and links by one command, files by exactly the
+source's chunks with the time stamp on the last one, whose lengths add up to the listed size. -/
+theorem C01_copy_trace (c : Ctx) (hdry : c.dryRun = false) (errAt : Option Nat) (files : List (String × FileScript))
+    (l : List (String × (Details × CopyReason))) (x x' : XState) (st st' : Stats)
+    (h : copyLoop c errAt files l x st = (none, x', st')) :
+    x'.dest = x.dest ++ l.flatMap (fun it => copyCmds files it.1 it.2.1) := by
+  induction l generalizing x st with
+  | nil => simp only [copyLoop, Prod.mk.injEq] at h; obtain ⟨-, rfl, -⟩ := h; simp
+  | cons it rest ih =>
+    obtain ⟨p, d, r⟩ := it
+    simp only [copyLoop] at h
+    generalize hr : copyOne c errAt files p d x st = r1 at h
+    obtain ⟨e1, x1, st1⟩ := r1
+    cases e1 with
+    | some e => simp at h
+    | none =>
+      simp only at h
+      by_cases hq : (x1.poll errAt).1 = true
+      · simp [hq] at h
+      · simp only [hq, Bool.false_eq_true, ↓reduceIte] at h
+        have h2 := ih _ _ h
+        have h1 : x1.dest = x.dest ++ copyCmds files p d := by
+          cases d with
+          | folder =>
+            simp only [copyOne, hdry, Bool.false_eq_true, ↓reduceIte, Prod.mk.injEq] at hr
+            obtain ⟨-, rfl, -⟩ := hr; simp [XState.sendDest, copyCmds]
+          | symlink k t =>
+            simp only [copyOne, hdry, Bool.false_eq_true, ↓reduceIte, Prod.mk.injEq] at hr
+            obtain ⟨-, rfl, -⟩ := hr; simp [XState.sendDest, copyCmds]
+          | file mtime size =>
+            simp only [copyOne, hdry, Bool.false_eq_true, ↓reduceIte, copyFileReal] at hr
+            generalize hc : chunkLoop errAt p size mtime (fileScript files p) (x.sendSrc (.getFileContent p)) 0 = rc at hr
+            obtain ⟨ec, xc, off⟩ := rc
+            cases ec with
+            | some e => simp at hr
+            | none =>
+              simp only at hr
+              by_cases hsz : off = size
+              · simp only [hsz, ne_eq, not_true_eq_false, ↓reduceIte, Prod.mk.injEq] at hr
+                obtain ⟨-, rfl, -⟩ := hr
+                obtain ⟨-, -, hd, -⟩ := C11.C11_relay_ok errAt p size mtime _ _ _ 0 off hc hsz
+                simpa [XState.sendSrc, copyCmds] using hd
+              · simp [hsz] at hr
+        simp only [XState.poll] at h2
+        simp [h2, h1, List.append_assoc]
+
+/-- Non-vacuity of the table theorem's model side: a file source into a trailing-slash folder
+destination lands inside it (`b/a`), a folder source with a trailing slash on a missing destination
+creates it, a file source with a trailing slash is refused. -/
+example : Generated.slashTable.length = 6 ∧
+    modelCell (some (.file 1 1)) (some .folder) false true = .ba ∧
+    modelCell (some .folder) none true true = .b false ∧
+    modelCell (some (.file 1 1)) none true false = .x := by decide
 
 end Rj.C01
